@@ -287,6 +287,10 @@ func runC20(h *Harness) {
 			os.WriteFile(p, []byte("foreign"), 0600)
 		}
 	}
+	foreignNames := map[string]bool{}
+	for name := range foreign {
+		foreignNames[name] = true
+	}
 	outside := func() []string {
 		var out []string
 		for _, e := range ListTree(sandbox) {
@@ -304,6 +308,8 @@ func runC20(h *Harness) {
 		tree := h.TreeOf(n)
 		if tmp := tmpArtefacts(tree); len(tmp) > 0 {
 			h.Violation("C20.temp-artefacts", "tmp:"+backend, "%s: temporary artefacts remain in the work_dir: %v", when, tmp)
+		} else if stray := h.strayEntries(wd, foreignNames); len(stray) > 0 {
+			h.Violation("C20.temp-artefacts", "stray:"+backend, "%s: the work_dir holds entries that are neither foreign nor a database of the validator: %v", when, stray)
 		}
 		for name, dir := range foreign {
 			p := filepath.Join(wd, name)
